@@ -1,9 +1,11 @@
 package props
 
 import (
+	"context"
 	"errors"
 	"fmt"
 	"github.com/remieven/ysgo"
+	"io"
 	"math"
 	"os"
 	"os/exec"
@@ -107,6 +109,7 @@ type c10Cmd struct {
 	shape int
 	polls int
 	fail  bool
+	err   error // the error value reported when fail is set (nil: the harness's sentinel)
 	// closeOnly: success is reported by closing the channel without sending anything (defer close(done))
 	closeOnly bool
 	id        string
@@ -140,10 +143,16 @@ func (k *c10Cmd) result() error {
 		return c10Errno(5)
 	}
 	if k.fail {
+		if k.err != nil {
+			return k.err
+		}
 		return errSentinel
 	}
 	return nil
 }
+
+// c10ErrValues are error values a game's command may well report: to the runner they are errors like any other.
+var c10ErrValues = []error{nil, nil, context.Canceled, context.DeadlineExceeded, io.EOF, io.ErrUnexpectedEOF, os.ErrNotExist}
 
 // complete reports completion (opens the gate).
 func (k *c10Cmd) complete() {
@@ -485,7 +494,7 @@ func (p c10) gated(c *core.Ctx) {
 	tail := r.Chance(1, 3)
 	for i := 0; i < ncmd; i++ {
 		addFiller()
-		k := &c10Cmd{name: fmt.Sprintf("cmd%d", i), shape: r.Intn(len(c10Shapes)), polls: r.Intn(6), gate: make(chan struct{})}
+		k := &c10Cmd{name: fmt.Sprintf("cmd%d", i), shape: r.Intn(len(c10Shapes)), polls: r.Intn(6), gate: make(chan struct{}), err: c10ErrValues[r.Intn(len(c10ErrValues))]}
 		k.fail = r.Chance(1, 3) && k.shape != 2 && k.shape != 7 || k.shape == 8
 		if k.shape == 7 {
 			k.polls = 0 // a nil channel is an immediate error
